@@ -1125,6 +1125,7 @@ func c18JwtMuts() []c18JwtMut {
 		{"inv-payload-flipped", 2, func(r *verifh.Rng, t *c18Tok) { t.post = "flip-payload" }},
 		{"inv-payload-swapped", 2, func(r *verifh.Rng, t *c18Tok) { t.post = "swap-payload" }},
 		{"sig-flipped", 3, func(r *verifh.Rng, t *c18Tok) { t.post = "flip-sig" }},
+		{"sig-unused-bits-changed", 2, func(r *verifh.Rng, t *c18Tok) { t.post = "sig-unused-bits" }},
 		{"inv-sig-truncated", 1, func(r *verifh.Rng, t *c18Tok) { t.post = "truncate-sig" }},
 		{"inv-sig-empty", 1, func(r *verifh.Rng, t *c18Tok) { t.post = "nosig" }},
 		{"inv-sig-padded", 1, func(r *verifh.Rng, t *c18Tok) { t.post = "padded-sig" }},
@@ -1264,6 +1265,20 @@ func c18GenJwt(r *verifh.Rng, plan *c18Plan, muts []c18JwtMut, weights []int) ve
 				t.label = "eq-sig-unused-bits-flipped"
 			} else {
 				t.label = "inv-sig-flipped"
+			}
+		case "sig-unused-bits":
+			// the last character of an unpadded base64 text may carry bits that encode nothing (2 for HS256, 4 for HS512,
+			// none for HS384): changing only those gives another text for the same signature bytes
+			const al = "ABCDEFGHIJKLMNOPQRSTUVWXYZabcdefghijklmnopqrstuvwxyz0123456789-_"
+			last := strings.IndexByte(al, sig[len(sig)-1])
+			fs := sig[:len(sig)-1] + string(al[last^1])
+			tok = hs + "." + ps + "." + fs
+			a, _ := base64.RawURLEncoding.DecodeString(sig)
+			b, err := base64.RawURLEncoding.DecodeString(fs)
+			if err == nil && bytes.Equal(a, b) {
+				t.label = "eq-sig-unused-bits-changed"
+			} else {
+				t.label = "inv-sig-last-bit-changed"
 			}
 		case "swap-payload":
 			claims["uid"] = 1
